@@ -50,6 +50,11 @@ def _r6_entry_written_whole(ctx):
     ctx.ok("R6", "field-wise entry refreshes examined", "", "%d" % n)
 
 
+def cg_callers(P, f):
+    from ..callgraph import callgraph
+    return callgraph(P).callers(f)
+
+
 def run(ctx):
     P = ctx.P
     cg = callgraph(P)
@@ -165,6 +170,38 @@ def run(ctx):
                     good = any(y[0] == "call" and y[1] == "std::time::Duration::as_secs" and norm(y[2][0])[0] == "param" for y in subterms(a)) and not any(
                         y[0] == "bin" for y in subterms(a))
             ctx.check(good, "R2", "decrement-in-whole-seconds", ctx.where(b), "TTLs are reduced by decrement.as_secs()")
+
+    # ... and `now` is now: every caller of the lookup reads the clock for that lookup, with no suspension point between the reading and
+    # the call.  A time taken before waiting for the upstream makes an entry that lapsed during the wait look alive, and ages it by
+    # nothing.
+    n_now = 0
+    for f in get:
+        for cb, bb, tm in cg_callers(P, f):
+            if "::test" in cb.id:
+                continue
+            n_now += 1
+            ctx.saw(cb)
+            Tc = terms(P, cb)
+            ccfg = cfg_of(cb)
+            a = norm(Tc.call_args(bb)[2])
+            fresh = a[0] == "call" and str(a[1]).endswith("Instant::now") and len(a) > 3
+            stale = []
+            if fresh:
+                nb = a[3]
+                fwd = ccfg.reachable_from(nb)
+                back, todo = set(), [bb]
+                while todo:
+                    x = todo.pop()
+                    if x in back:
+                        continue
+                    back.add(x)
+                    if x != nb:
+                        todo.extend(ccfg.pred[x])
+                stale = [x for x in (fwd & back) if x != bb and (cb.blocks[x]["term"] or {}).get("k") == "yield"]
+            ctx.check(fresh and not stale, "R2", "lookup-time-is-read-for-the-lookup:%s" % cb.id.split("::{")[0].rsplit("::", 1)[-1], ctx.where(cb, tm["sp"]),
+                      "the time handed to the cache lookup must be Instant::now() read with no await between the reading and the lookup "
+                      "(is %s; suspension points in between: %d)" % (show(a)[:60], len(stale)))
+    ctx.floor("R2", "callers of the cache lookup", n_now, 1)
 
     # ---------------- R3/R4/R5 in the cache handler
     h = "erbium::dns::cache::CacheHandler::handle_query"
